@@ -95,6 +95,10 @@ func (sp *Spec) renderTypes() string {
 		switch t.Kind {
 		case KExt:
 			// constructed in its own file (ext_<alias>.go), the only one importing that package
+		case KCtx:
+			if t.Expr() != "context.Context" {
+				fmt.Fprintf(&b, "type %s = context.Context\n\n", t.Name)
+			}
 		case KPtr:
 			fmt.Fprintf(&b, "type %s struct{ Term string }\n\n", t.Name)
 			fmt.Fprintf(&b, "func (t *%s) TermOf() string {\n\tif t == nil {\n\t\treturn \"<nil>\"\n\t}\n\treturn t.Term\n}\n", t.Name)
